@@ -154,7 +154,41 @@ def par_convert(ctx, rule="C10.par-convert"):
     ctx.floor(rule, 1)
 
 
+def ctor_guard(ctx, rule="C10.symbol-cache"):
+    """FreeParameter(name) re-initialises the memoised symbol of that name: Program.params may construct one only
+    for a name it does not know yet"""
+    f = ctx.tree.func("program.py", "Program.params")
+    cfg = cfg_of(f.node)
+    calls = [n for n in walk_no_nested(f.node) if isinstance(n, ast.Call) and dotted(n.func) == "FreeParameter"]
+    ctx.require(calls, "Program.params no longer creates FreeParameter objects")
+    for c in calls:
+        nid = cfg.node_of_expr(c)[0]
+        conds = cfg.branch_conditions(nid)
+        ok = any(cfg.node(h).kind == "if" and isinstance(cfg.node(h).ast, ast.Compare) and
+                 isinstance(cfg.node(h).ast.ops[0], ast.NotIn) and "free_params" in ast.unparse(cfg.node(h).ast)
+                 and lab == TRUE for h, lab in conds) or \
+            any(cfg.node(h).kind == "if" and isinstance(cfg.node(h).ast, ast.Compare) and
+                isinstance(cfg.node(h).ast.ops[0], ast.In) and "free_params" in ast.unparse(cfg.node(h).ast)
+                and lab == FALSE for h, lab in conds)
+        ctx.ob(rule, f.site, ok, "" if ok else "FreeParameter(name) is constructed although the name may already exist: "
+               "sympy returns the cached symbol and __init__ resets its bound value and default", role="ctor-guard",
+               line=c.lineno)
+
+
+def values(ctx):
+    from . import c08
+    c08.values(ctx)
+    for o in ctx.obls:
+        if o.rule == "C08.values":
+            o.rule = "C10.values"
+            o.key = o.key.replace("C08.values", "C10.values")
+    ctx.floors.pop("C08.values", None)
+    ctx.floor("C10.values", 2)
+
+
 def rules(ctx):
+    ctor_guard(ctx)
+    values(ctx)
     errors(ctx)
     evaluate_at_apply(ctx)
     symbol_cache(ctx)
